@@ -4,33 +4,61 @@
    segments / seg_record / tests / bracket are the specification (Spec/C10.v, DESIGN Appendix A.2).
    The theorems hold for every representation M of mime types, CT of content types and every
    parse : option M -> CT; C10's correspondence instantiates them with codes (parse10). *)
-From Coq Require Import String.
+From Coq Require Import String Permutation.
 From TT Require Import Lib.Base Lib.Bytestr Gen.Streamtabs Model.StreamRec Spec.C10 Corr.C10 Proof.C10.
 Open Scope list_scope.
 
-(* The model meets the whole statement for every event stream: dicts of StreamToDict, attributes of
+(* The observation separates what is reported by the status() calls (o_dicts, o_pre, o_ext) from what
+   stopTestRun adds (o_flush, o_sum, o_extflush).  The statement fixes the first part exactly and the second
+   part as a multiset of whole tests: it does not say in which order stopTestRun reports several incomplete
+   tests.  The model reports them in dict.popitem order, one of the allowed orders.
+
+   The model meets the whole statement for every event stream: dicts of StreamToDict, attributes of
    StreamSummary, log of StreamToExtendedDecorator. *)
 Theorem C10_holds : forall i : input, spec_okb i (model i) = true.
 Proof. exact model_meets_spec. Qed.
 Print Assumptions C10_holds.
 
-(* ... and the executable statement implies the readable one (Spec.C10.Spec). *)
-Theorem C10_statement : forall i o, spec_okb i o = true -> Spec i o.
-Proof. exact spec_okb_sound. Qed.
+(* ... and the executable statement is equivalent to the readable one (Spec.C10.Spec). *)
+Theorem C10_statement : forall i o, spec_okb i o = true <-> Spec i o.
+Proof. exact spec_okb_spec. Qed.
 Print Assumptions C10_statement.
 
-(* the correspondence compares observations up to alpha = "forget the tags() calls on the extended result" *)
-Theorem C10_obs_eqb : forall a b, obs_eqb a b = true <-> alpha a = alpha b.
+(* The correspondence compares observations up to Corr.C10.obs_equiv: equal before stopTestRun (the tags()
+   calls on the extended result forgotten); what stopTestRun adds - dicts, entries of each StreamSummary list,
+   per-test blocks of the extended log - equal as multisets. *)
+Theorem C10_obs_eqb : forall a b, obs_eqb a b = true <-> obs_equiv a b.
 Proof. exact obs_eqb_spec. Qed.
 Print Assumptions C10_obs_eqb.
 
+Theorem C10_obs_equiv_equivalence :
+  (forall a, obs_equiv a a) /\ (forall a b, obs_equiv a b -> obs_equiv b a)
+  /\ (forall a b c, obs_equiv a b -> obs_equiv b c -> obs_equiv a c).
+Proof. exact (conj obs_equiv_refl (conj obs_equiv_sym obs_equiv_trans)). Qed.
+Print Assumptions C10_obs_equiv_equivalence.
+
+(* The comparison forgets exactly what the statement leaves open: two observations it identifies get the
+   same verdict (an implementation that flushes in another order cannot be told from the model by either). *)
+Theorem C10_statement_respects_obs_eqb : forall i a b, obs_eqb a b = true -> spec_okb i a = spec_okb i b.
+Proof. exact spec_okb_respects_eqb. Qed.
+Print Assumptions C10_statement_respects_obs_eqb.
+
 (* Refinement: over ALL event streams the callbacks of _StreamToTestRecord are the tests of the segment
-   specification, in order - one per final status at the position of that status among the callbacks, the
-   unfinished ones at stopTestRun, last opened first (dict.popitem). *)
+   specification - one per final status at the position of that status among the callbacks, the
+   unfinished ones at stopTestRun (in the model: last opened first, dict.popitem). *)
 Theorem C10_refines : forall M CT (parse : option M -> CT) (es : list (event M)),
   consume parse es = tests parse es.
 Proof. exact consume_refines. Qed.
 Print Assumptions C10_refines.
+
+(* ... split at stopTestRun: the status() calls report exactly the completed tests, in the order of their final
+   events; stopTestRun reports exactly the tests that never completed; together these are all tests. *)
+Theorem C10_reports : forall M CT (parse : option M -> CT) (es : list (event M)),
+  consume_from parse false [] es = done_tests parse es
+  /\ flush (tbl_after parse [] es) = hung_tests parse es
+  /\ tests parse es = done_tests parse es ++ hung_tests parse es.
+Proof. exact (fun M CT parse es => conj (consume_done M CT parse es) (conj (flush_hung M CT parse es) (tests_split M CT parse es))). Qed.
+Print Assumptions C10_reports.
 
 (* Exactly once, part 1 (partition): for every key (test id, route code) the events of the tests reported for
    that key, concatenated in report order, are exactly the events of that key in stream order. *)
@@ -131,4 +159,25 @@ Example C10_example :
       Rcd 1 [2] [] Inprogress (Some 2) None ]
   /\ s_run (summarize parse10 es) = 3 /\ s_errors (summarize parse10 es) = [1; 1; 1]
   /\ was_successful (summarize parse10 es) = false.
+Proof. vm_compute. repeat split. Qed.
+
+(* the statement accepts either order of the flush at stopTestRun (two incomplete tests), and rejects a
+   flush that loses or duplicates one *)
+Example C10_flush_order_free :
+  let e i := @Ev nat (Some i) None None None None None false None None in
+  let i := {| evs := [e 1; e 2] |} in
+  let swap (o : obs) :=
+    {| o_dicts := o_dicts o; o_flush := rev (o_flush o); o_pre := o_pre o;
+       o_sum := {| sl_run := 2; sl_failures := []; sl_errors := rev (sl_errors (o_sum o)); sl_skipped := [];
+                   sl_xfail := []; sl_uxs := [] |};
+       o_ok := o_ok o; o_ext := o_ext o;
+       o_extflush := [LStartTest 1; LOutcome AddFailure 1 [] []; LStopTest 1;
+                      LStartTest 2; LOutcome AddFailure 2 [] []; LStopTest 2; LStopRun] |} in
+  let lose (o : obs) :=
+    {| o_dicts := o_dicts o; o_flush := tl (o_flush o); o_pre := o_pre o; o_sum := o_sum o;
+       o_ok := o_ok o; o_ext := o_ext o; o_extflush := o_extflush o |} in
+  o_flush (model i) = [Rcd 2 [] [] Unknown None None; Rcd 1 [] [] Unknown None None]
+  /\ spec_okb i (model i) = true /\ spec_okb i (swap (model i)) = true
+  /\ obs_eqb (model i) (swap (model i)) = true
+  /\ spec_okb i (lose (model i)) = false /\ obs_eqb (model i) (lose (model i)) = false.
 Proof. vm_compute. repeat split. Qed.
